@@ -113,7 +113,7 @@ def run_packer(tools, cmd, out, stdin=None, timeout=10):
         rc, err = p.returncode, p.stderr.decode(errors="replace")
     except subprocess.TimeoutExpired:
         return "hang", ""
-    if "AddressSanitizer" in err or "runtime error" in err:
+    if "ERROR: AddressSanitizer" in err or "runtime error" in err:
         return "sanitizer", err[:300]
     if rc < 0 or rc in (134, 139):
         return "signal", err[-200:]
@@ -358,7 +358,7 @@ def run(tier):
         except subprocess.TimeoutExpired:
             return i, "hang", "", None, txt
         keys = None
-        if "AddressSanitizer" in err or "runtime error" in err:
+        if "ERROR: AddressSanitizer" in err or "runtime error" in err:
             res = "sanitizer"
         elif rc < 0 or rc in (134, 139):
             res = "signal"
